@@ -95,6 +95,9 @@ pub fn predicate(id: &str, v: &Violation) -> bool {
                 && sig_s(v, "location").map(|l| l.starts_with("src/meet_pass/est_times/mod.rs")).unwrap_or(false)
                 && sig_s(v, "message").map(|m| m.contains("est_time_prev.idx_next == est_idx")).unwrap_or(false)
         }
+        // history-identified: the observer saw committed dispatch nodes of a waiting train replaced by a re-route
+        // earlier in the same run; the abort that follows is the consequence
+        "C05-reroute-replaces-nodes-already-passed" => v.monitor == "panic" && v.layer == "dispatch" && sig_bool(v, "reroute_replaced_nodes_already_passed") == Some(true),
         // bincode is not self-describing: a field that `skip_serializing_if` left out on output shifts every
         // later byte. Decidable from the yaml rendering: a known skippable key is absent.
         "C17-bincode-cannot-carry-skipped-fields" => {
